@@ -24,6 +24,8 @@ import (
 	"fmt"
 	"go/token"
 	"os"
+	"runtime/debug"
+	"strings"
 
 	"golang.org/x/tools/go/ssa"
 )
@@ -66,6 +68,9 @@ func (m *Module) anchor(fn *ssa.Function) {
 	}
 	if m.anchors == nil {
 		m.anchors = map[*ssa.Function]bool{}
+	}
+	if d := os.Getenv("FFC_DEBUG_ANCHOR"); d != "" && !m.anchors[fn] && strings.Contains(fn.String(), d) {
+		fmt.Fprintf(os.Stderr, "anchor %s\n%s\n", fn, debug.Stack())
 	}
 	m.anchors[fn] = true
 }
